@@ -191,13 +191,15 @@ Definition jn_fin (s : Jn.st) (_ : bool) : list nat :=
 Definition jn_trie (t : trie) : list (list nat) :=
   run_trie Jn.step (fun _ => false) jn_dec jn_fin (Jn.init 0) false 0 t.
 
-(* O f c a b : 1 fiber f stores b into variable a, 2 fiber f reads variable a *)
+(* O f c a b : 1 fiber f stores b into variable a (b = 0: nullptr), 2 fiber f reads variable a,
+   3 the initialiser of variable a is b (SetDefault) *)
 Definition tl_dec (c : cev) : option Tl.ev :=
   match c with
   | R _ _ => None
   | O f c a b =>
       match n c with
       | 1 => Some (Tl.ESet (n f) (n a) (n b)) | 2 => Some (Tl.EGet (n f) (n a))
+      | 3 => Some (Tl.EDefault (n a) (n b))
       | _ => None
       end
   end.
